@@ -296,5 +296,45 @@ pub fn instances(tier: Tier) -> Vec<Prog> {
             }
         }
     }
+    // S7: two codata types sharing a destructor name at different positions, both observed
+    {
+        let obj = V::Thunk(
+            Box::new(C::Comatch(OBJ, vec![C::Ret(V::Int(11)), C::Fn(Pat::Var(2, VT::Int), Box::new(C::Ret(V::Int(22)))), C::Ret(V::Ctor(BOOL, 0, Box::new(V::Unit)))])),
+            CT::Codata(OBJ),
+        );
+        let cell = V::Thunk(Box::new(C::Comatch(CELL, vec![C::Ret(V::Int(5)), C::Ret(V::Int(6)), C::Ret(V::Int(7))])), CT::Codata(CELL));
+        // observation sequences: (which object, destructor index)
+        let obs_sets: Vec<Vec<(usize, usize)>> = vec![
+            vec![(0, 0), (1, 0), (1, 1), (1, 2)],
+            vec![(1, 0), (1, 2), (0, 0), (0, 1)],
+            vec![(1, 2), (0, 0), (1, 0)],
+            vec![(0, 1), (1, 1), (0, 0), (1, 2), (1, 0)],
+        ];
+        for first_obj in [true, false] {
+            for obs in &obs_sets {
+                // variables: 0 = first bound object, 1 = second; results from 10..
+                let (ta, va, tb, vb) = if first_obj { (CT::Codata(OBJ), obj.clone(), CT::Codata(CELL), cell.clone()) } else { (CT::Codata(CELL), cell.clone(), CT::Codata(OBJ), obj.clone()) };
+                let var_of = |which: usize| -> Var {
+                    // which: 0 = Obj, 1 = Cell
+                    if (which == 0) == first_obj { 0 } else { 1 }
+                };
+                let mut body: C = C::Ret(V::Tuple((0..obs.len()).map(|k| V::Var(10 + k as Var)).chain([V::Int(0)]).collect()));
+                for (k, (which, d)) in obs.iter().enumerate().rev() {
+                    let decl = if *which == 0 { OBJ } else { CELL };
+                    let mut call = C::Dtor(Box::new(C::Force(V::Var(var_of(*which)))), decl, *d);
+                    if decl == OBJ && *d == 1 {
+                        call = C::App(Box::new(call), V::Int(3));
+                    }
+                    if decl == OBJ && *d == 2 {
+                        continue;
+                    }
+                    body = C::Do(Pat::Var(10 + k as Var, VT::Int), Box::new(call), Box::new(body));
+                }
+                let prog = C::Let(Pat::Var(0, thk(ta.clone())), va, thk(ta), Box::new(C::Let(Pat::Var(1, thk(tb.clone())), vb, thk(tb), Box::new(body))));
+                let root = ret(VT::Prod(std::iter::repeat(VT::Int).take(obs.len() + 1).collect()));
+                out.push(Prog { origin: "schema-shared-destructor".into(), root, body: prog, stdin: b"" });
+            }
+        }
+    }
     out
 }
